@@ -213,17 +213,23 @@ type c12FlowCase struct {
 	Consent  string `json:"consent,omitempty"` // "" = everything requested is granted | partial = only the first scope and the first audience
 }
 
-var c12Flows = []string{"code", "implicit", "hyb-idt", "hyb-tok", "hyb-all", "client_credentials", "password", "device", "par", "jwt-bearer", "refresh"}
+var c12Flows = []string{"code", "implicit", "hyb-idt", "hyb-tok", "hyb-all", "client_credentials", "password", "device", "par", "jwt-bearer", "jwt-bearer-key-without-scopes", "refresh"}
 var c12ScopeFamilies = []string{"a", "zzz", "a zzz", "a.x", "b", "b.c", "b.c.d", "*", "ab", "b.*", "a b.c", ""}
 var c12AudFamilies = []string{"", "https://api.example/a", "https://api.example/a/sub", "https://api.example/ab", "https://other.example", "http://api.example/a", "https://api.example/a https://other.example", "https://api.example", "https://api.example/a https://api.example/b", "https://api.example/b https://api.example/a/sub"}
 
 func c12RunFlow(c c12FlowCase, res *WRes) {
+	orig := c
 	w := NewWorld(Profile{ScopeStrategy: c.Strategy, AudStrategy: c.AudStrat, RefreshScopes: []string{}})
 	reg := append(c05ClientScopes(c.Strategy), "openid")
 	cl := w.AddClient("C", "secret-C", false)
 	cl.Scopes = reg
 	cl.Audience = []string{"https://api.example/a", "https://api.example/b"}
 	keyScopes := reg
+	if c.Flow == "jwt-bearer-key-without-scopes" {
+		// the key is registered for no scope at all: nothing may be requested with it
+		keyScopes = nil
+		c.Flow = "jwt-bearer"
+	}
 	if c.Flow == "jwt-bearer" {
 		// the key registration is narrower than the client's: only it may confine the grant
 		cl.Scopes = append(append([]string(nil), reg...), "zzz", "ab", "*", "a.x", "b.c.d", "b.*", "b")
@@ -232,7 +238,7 @@ func c12RunFlow(c c12FlowCase, res *WRes) {
 			"subject-1": {Subject: "subject-1", Keys: map[string]storage.PublicKeyScopes{"kid-1": {Key: &k, Scopes: keyScopes}}}}}
 	}
 	viol := func(fp, what, exp string, obs any) {
-		res.violate(Violation{Property: "C12", Fingerprint: fp, What: what, Engine: "c12flow", Case: c, Expected: exp, Observed: obs})
+		res.violate(Violation{Property: "C12", Fingerprint: fp, What: what, Engine: "c12flow", Case: orig, Expected: exp, Observed: obs})
 	}
 	reqScopes := strings.Fields(c.Scope)
 	reqAud := strings.Fields(c.Audience)
